@@ -123,7 +123,7 @@ func Specs() map[string]*PropSpec {
 	}
 	c19 := []Inst{{Pkg: "x/coinomics", Fn: "VerifC19_Coinomics", Params: pm()}, {Pkg: "x/feemarket", Fn: "VerifC19_Feemarket", Params: pm()},
 		{Pkg: "x/liquidvesting", Fn: "VerifC19_Liquidvesting", Params: pm("denoms", "2", "periods", "2")}, {Pkg: "x/ucdao/keeper", Fn: "VerifC19_Ucdao", Params: pm("accounts", "2")},
-		{Pkg: "x/evm", Fn: "VerifC19_Evm", Params: pm("accounts", "1")}, {Pkg: "x/evm", Fn: "VerifC19_Evm", Params: pm("accounts", "2", "varyParams", "0")}, {Pkg: "x/erc20", Fn: "VerifC19_Erc20", Params: pm(), EngineReplay: true}}
+		{Pkg: "x/evm", Fn: "VerifC19_Evm", Params: pm("accounts", "1")}, {Pkg: "x/evm", Fn: "VerifC19_Evm", Params: pm("accounts", "2", "varyParams", "0", "vals", "1")}, {Pkg: "x/erc20", Fn: "VerifC19_Erc20", Params: pm(), EngineReplay: true}}
 	c19t := []Inst{{Pkg: "x/coinomics", Fn: "VerifC19_Coinomics", Params: pm()}, {Pkg: "x/feemarket", Fn: "VerifC19_Feemarket", Params: pm()},
 		{Pkg: "x/liquidvesting", Fn: "VerifC19_Liquidvesting", Params: pm("denoms", "3", "periods", "3")}, {Pkg: "x/ucdao/keeper", Fn: "VerifC19_Ucdao", Params: pm("accounts", "3")},
 		{Pkg: "x/evm", Fn: "VerifC19_Evm", Params: pm("accounts", "2")}, {Pkg: "x/erc20", Fn: "VerifC19_Erc20", Params: pm(), EngineReplay: true}}
@@ -222,11 +222,13 @@ func Specs() map[string]*PropSpec {
 		Stubs:       []string{"sLedger", "c02Bank", "c04Srv (staking message server)", "authz keeper overrides"},
 	}
 	m["C01"] = &PropSpec{
-		ID: "C01", Pkgs: []string{"./x/evm/statedb"},
-		Quick:    []Inst{{Pkg: "x/evm/statedb", Fn: "VerifC01_CommitOrder", Params: pm("ops", "2", "kinds", "ts"), EngineReplay: true}},
-		Thorough: []Inst{{Pkg: "x/evm/statedb", Fn: "VerifC01_CommitOrder", Params: pm("ops", "3", "kinds", "ts", "amts", "1", "vals", "2"), EngineReplay: true}},
+		ID: "C01", Pkgs: []string{"./x/evm/statedb", "./app/ante/evm"},
+		Quick: []Inst{{Pkg: "x/evm/statedb", Fn: "VerifC01_CommitOrder", Params: pm("ops", "2", "kinds", "ts"), EngineReplay: true},
+			{Pkg: "app/ante/evm", Fn: "VerifC01_NodeLocalConfig", Params: pm("msgs", "2")}},
+		Thorough: []Inst{{Pkg: "x/evm/statedb", Fn: "VerifC01_CommitOrder", Params: pm("ops", "3", "kinds", "ts", "amts", "1", "vals", "2"), EngineReplay: true},
+			{Pkg: "app/ante/evm", Fn: "VerifC01_NodeLocalConfig", Params: pm("msgs", "3")}},
 		Bounds: map[string]string{
-			"quick":    "StateDB.Commit after every program of <= 2 operations (transfers, SSTOREs) over 3 accounts sharing their first 16 address bytes and 2 slots: all iteration orders of the dirty-account and dirty-storage maps explored; the sequence of keeper writes is ascending in (address, key) for each",
+			"quick":    "StateDB.Commit after every program of <= 2 operations (transfers, SSTOREs) over 3 accounts sharing their first 16 address bytes and 2 slots: all iteration orders of the dirty-account and dirty-storage maps explored; the sequence of keeper writes is ascending in (address, key) for each; node-local configuration: the eth gas-consume decorator in DeliverTx mode on <= 2 messages (any gas, prices, base fee, block gas limit) under two arbitrary values of the operator's max-tx-gas-wanted setting gives the same verdict, transaction gas limit and priority (relational check)",
 			"thorough": "<= 3 operations",
 		},
 		Outside:     []string{"equality of app hashes of two replicas over block histories (BaseApp, IAVL, all modules)", "goroutine-fed counters (app/tps_counter.go): concurrency", "fixed Begin/EndBlocker ordering and sorted module-account construction in app.go (construction-time facts)"},
